@@ -402,6 +402,33 @@ func (d *deriver) obligations(dv *Derived, formatter string) {
 			}
 		}
 	}
+	// the scope the type parameters of a mock are named in names nothing else: a later variable of the same
+	// scope (a helper for the self-check line, a method's parameter) can rename a type parameter, and the
+	// methods spell the type parameter as go/types prints it, not as the scope ends up calling it
+	{
+		tpScope := map[int]string{}
+		tpIDs := map[string]bool{}
+		for _, mv := range mocks {
+			for _, tp := range listOf(fieldOf(structOf(mv), "TypeParams")) {
+				if vr, _ := varOf(tp); vr != nil {
+					if rec := d.vars[vr.ID]; rec != nil {
+						tpScope[rec.scope] = vr.ID
+						tpIDs[vr.ID] = true
+					}
+				}
+			}
+		}
+		var strangers []string
+		for id, rec := range d.vars {
+			if _, shared := tpScope[rec.scope]; shared && !tpIDs[id] {
+				strangers = append(strangers, id)
+			}
+		}
+		sort.Strings(strangers)
+		if len(tpScope) > 0 {
+			dv.ob("G-SCOPE/typeparams-only", "scope", len(strangers) == 0, "the name scope of a mock's type parameters also names %v: a clash renames the type parameter (`[n ~int | ~int64]` becomes `[n1 …]`) while the method signatures keep the spelling go/types prints", strangers)
+		}
+	}
 	for range mocks {
 		dv.ob("G-SCOPE/fresh", "per-method", true, "")
 	}
